@@ -37,6 +37,10 @@ for f in ('exp', 'log', 'log10', 'sqrt', 'sin', 'cos', 'tan', 'asin', 'acos', 'a
 for op in ('lt', 'le', 'eq', 'ge', 'gt', 'ne'):
     for rhs in (-1, 0, 0.5, 1, 2.5):
         UNARY.append(('%s%g' % (op, rhs), (lambda op, rhs: lambda a: ('count', (op, a, N(rhs)), ('b', 0)))(op, rhs)))
+# comparisons of a single variable with a coefficient other than 1 (the threshold is divided by the coefficient)
+for op in ('lt', 'le', 'eq', 'ge', 'gt', 'ne'):
+    for cf, rhs in ((2, 2), (-3, 3), (2, 1), (0.5, 1), (-2, -4)):
+        UNARY.append(('%s(%gx,%g)' % (op, cf, rhs), (lambda op, cf, rhs: lambda a: ('count', (op, ('mul', N(cf), a), N(rhs)), ('b', 0)))(op, cf, rhs)))
 UNARY.append(('not', lambda a: ('count', ('not', ('ge', a, N(1))), ('b', 0))))
 UNARY.append(('numberofc1', lambda a: ('numberof', N(1), a, N(1))))
 UNARY += [('maxc2.5', lambda a: ('max', a, N(2.5))), ('minc2.5', lambda a: ('min', a, N(2.5))), ('minc-0.5', lambda a: ('min', a, N(-0.5))),
@@ -285,6 +289,57 @@ def work_root(job):
     return dict(st), viols[:3]
 
 
+# ---------------------------------------------------------------------------------------------------
+# periodic functions approximated piecewise-linearly: x = P*k + r with an integer period index k and a remainder r.
+# The bounds given to k and r must leave a representation for every value of the argument domain (whether the PL graph
+# reaches the ends of the remainder range is C13's subject).
+PERIODIC = [('sin', (0.0, 40.0)), ('sin', (-50.0, 3.0)), ('sin', (29.0, 31.0)), ('cos', (0.0, 40.0)), ('cos', (-3.0, 100.0)),
+            ('sin', (100.0, 130.0)), ('cos', (-131.0, -100.0)), ('tan', (-1.0, 1.0)), ('sin', (-1.0, 1.0)), ('sin', (0.0, 1e4))]
+
+
+def work_periodic(job):
+    global _srv
+    if _srv is None: _srv = flatlib.Server(flatlib.build())
+    f, (lo, hi) = job
+    st = collections.Counter(); viols = []
+    m = Model([(lo, hi, False, 0.5)], obj=('min', (f, ('v', 0)), {}))
+    cfg = flatcheck.base_config('g0'); cfg['types']['PLConstraint'] = 2
+    r = _srv.request('convert', nl=m.nl(), opts='', acc=flatcheck.acc_of(cfg))
+    st['conversions'] += 1
+    if r.get('status') != 'ok': st['periodic_refused'] += 1; return dict(st), viols
+    V = r['vars']
+    rows = [c for c in r['cons'] if c['type'].startswith('AlgebraicConstraint< LinTerms, RhsEQ') and 0 in c['data']['body']['vars']
+            and len(c['data']['body']['vars']) == 3]
+    if not rows: st['periodic_no_decomposition'] += 1; return dict(st), viols      # argument inside one period
+    d = rows[0]['data']; co = dict(zip(d['body']['vars'], d['body']['coefs'])); rhs = d['rhs_or_range'][1]
+    kv = [v for v in co if v != 0 and V[v][2] == 1]; rv = [v for v in co if v != 0 and V[v][2] == 0]
+    if len(kv) != 1 or len(rv) != 1: st['periodic_unrecognised'] += 1; return dict(st), viols
+    k, rr = kv[0], rv[0]
+    st['periodic_instances'] += 1
+    n = 400
+    for i in range(n + 1):
+        x = lo + (hi - lo) * i / n
+        # co[0]*x + co[k]*K + co[rr]*R == rhs : exists integer K in bounds with R in bounds?
+        ok = False
+        klo = max(V[k][0], -1e7); khi = min(V[k][1], 1e7)
+        # candidate K from the remainder bounds
+        cands = set()
+        for rb in (V[rr][0], V[rr][1]):
+            kk = (rhs - co[0] * x - co[rr] * rb) / co[k]
+            cands.update((math.floor(kk), math.ceil(kk)))
+        for K in sorted(cands):
+            if K < klo - 1e-9 or K > khi + 1e-9: continue
+            R = (rhs - co[0] * x - co[k] * K) / co[rr]
+            if V[rr][0] - 1e-9 <= R <= V[rr][1] + 1e-9: ok = True; break
+        st['periodic_points'] += 1
+        if not ok:
+            viols.append(('C06 periodic %s: the bounds of the period index / remainder leave no representation for an argument value' % f,
+                          {'function': f, 'domain': [lo, hi], 'x': x, 'index_bounds': V[k][:2], 'remainder_bounds': V[rr][:2], 'row': d},
+                          {'nl': m.nl(), 'opts': ''}))
+            break
+    return dict(st), viols[:2]
+
+
 import importlib.util as _ilu
 _spec = _ilu.spec_from_file_location('c07lib', os.path.join(os.path.dirname(os.path.dirname(os.path.abspath(__file__))), 'C07', 'check.py'))
 _c07 = _ilu.module_from_spec(_spec); _spec.loader.exec_module(_c07)
@@ -306,10 +361,14 @@ def main(tier, seed):
             tot.update(st); classes.update(cl)
             if sample: chk.sample(sample)
             for sig, det, rp in viols: chk.violation(sig, det, rp)
+        for st, viols in pool.imap_unordered(work_periodic, PERIODIC, chunksize=1):
+            tot.update(st)
+            for sig, det, rp in viols: chk.violation(sig, det, rp)
         for st, viols in pool.imap_unordered(work_root, ROOTS, chunksize=1):
             tot.update(st)
             for sig, det, rp in viols: chk.violation(sig, det, rp)
     for k, v in tot.items(): chk.set(k, v)
+    if tot['periodic_instances'] < 5: chk.broken.append('vacuous: periodic family recognised only %d decompositions' % tot['periodic_instances'])
     if tot['root_points'] < 200: chk.broken.append('vacuous: root-logical family judged only %d points' % tot['root_points'])
     chk.set('cases', len(jobs))
     chk.set('evaluations', tot['conversions'])
